@@ -263,6 +263,16 @@ func (ctx *wrappedSRTPContext) initialize() error {
 	return nil
 }
 
+// rtpOverhead returns the number of bytes added to a RTP packet by encryptRTP.
+func (ctx *wrappedSRTPContext) rtpOverhead() int {
+	return srtpOverhead + len(ctx.mki)
+}
+
+// rtcpOverhead returns the number of bytes added to a RTCP packet by encryptRTCP.
+func (ctx *wrappedSRTPContext) rtcpOverhead() int {
+	return srtcpOverhead + len(ctx.mki)
+}
+
 func (ctx *wrappedSRTPContext) decryptRTP(dst []byte, encrypted []byte, header *rtp.Header) ([]byte, error) {
 	return ctx.w.DecryptRTP(dst, encrypted, header)
 }
